@@ -3,7 +3,7 @@
 Starts one fresh Python process per (sub-property, shard) on a pool of VERIF_JOBS slots, merges
 their JSON results, writes evidence/<PID>.json and prints VIOLATION / KNOWN-FINDING lines.
 Exit codes: 0 held, 1 violation, 2 harness problem."""
-import argparse
+import argparse, hashlib
 import concurrent.futures as cf
 import importlib
 import json
@@ -71,7 +71,12 @@ def main(argv=None):
     a = ap.parse_args(argv)
     pid = a.pid.upper()
     tier = a.tier
-    seed = int(os.environ.get('VERIF_SEED', '1') or 1)
+    sv = (os.environ.get('VERIF_SEED', '1') or '1').strip()
+    try:
+        seed = int(sv, 0)
+    except ValueError:
+        # any other text still selects one reproducible run
+        seed = int(hashlib.sha256(sv.encode()).hexdigest()[:15], 16)
     jobs = int(os.environ.get('VERIF_JOBS', str(os.cpu_count() or 4)))
     t0 = time.time()
     os.makedirs(os.path.join(HERE, 'evidence'), exist_ok=True)
@@ -257,4 +262,14 @@ def main(argv=None):
 
 
 if __name__ == '__main__':
-    sys.exit(main())
+    try:
+        _rc = main()
+    except SystemExit:
+        raise
+    except BaseException:
+        # a failure of the machinery itself is never reported as a violation (exit status 1)
+        import traceback
+        traceback.print_exc()
+        print('HARNESS-ERROR: unhandled exception in the runner')
+        _rc = 2
+    sys.exit(_rc)
